@@ -230,7 +230,11 @@ fn run_composed_case(i: u64, rng: &mut Rng, rep: &mut Report, verbose: bool) {
     let behind_entries_only = rng.bool();
     let pm = (rng.bool(), rng.bool(), rng.bool());
     let pm_vals = (format!("uid=u{},dc=x", rng.below(1000)), format!("old{}", rng.below(1000)), format!("n\u{e9}w{}", rng.below(1000)));
-    let typed_kind = rng.below(6);
+    let typed_kind = rng.below(7);
+    let sync_mode_persist = rng.bool();
+    let sync_cookie: Option<Vec<u8>> = match rng.below(3) { 0 => None, 1 => Some(vec![]), _ => Some(format!("ck{}", rng.below(1000)).into_bytes()) };
+    let sync_hint = rng.bool();
+    let sync_cookie2 = sync_cookie.clone();
     let authz = format!("dn:cn=proxy{},dc=x", rng.below(100));
     let rd_attrs: Vec<String> = (0..rng.usize(14)).map(|k| format!("attribute-number-{}", k)).collect();
     let critical = rng.bool();
@@ -265,7 +269,8 @@ fn run_composed_case(i: u64, rng: &mut Rng, rep: &mut Report, verbose: bool) {
                 }
             }
             1 => {
-                let exop: ldap3::exop::Exop = match typed_kind % 3 {
+                let exop: ldap3::exop::Exop = match typed_kind % 4 {
+                    3 => ldap3::exop::EndTxn { txn_id: &authz2, commit: critical }.into(),
                     0 => ldap3::exop::PasswordModify { user_id: if pm.0 { Some(&pm_vals2.0) } else { None }, old_pass: if pm.1 { Some(&pm_vals2.1) } else { None }, new_pass: if pm.2 { Some(&pm_vals2.2) } else { None } }.into(),
                     1 => ldap3::exop::WhoAmI.into(),
                     _ => ldap3::exop::StartTxn.into(),
@@ -289,6 +294,14 @@ fn run_composed_case(i: u64, rng: &mut Rng, rep: &mut Report, verbose: bool) {
                     2 => ldap3::controls::PreRead::new(rd2.iter().map(|s| s.as_str()).collect::<Vec<_>>()).into(),
                     3 => ldap3::controls::PostRead::new(rd2.iter().map(|s| s.as_str()).collect::<Vec<_>>()).into(),
                     4 => ldap3::controls::RelaxRules.into(),
+                    5 => {
+                        let sr = ldap3::controls::SyncRequest { mode: if sync_mode_persist { ldap3::controls::RefreshMode::RefreshAndPersist } else { ldap3::controls::RefreshMode::RefreshOnly }, cookie: sync_cookie2.clone(), reload_hint: sync_hint };
+                        if critical {
+                            ldap3::controls::MakeCritical::critical(sr).into()
+                        } else {
+                            sr.into()
+                        }
+                    }
                     _ => ldap3::controls::TxnSpec { txn_id: &authz2 }.into(),
                 };
                 ldap.with_controls(vec![rc]);
@@ -359,7 +372,16 @@ fn run_composed_case(i: u64, rng: &mut Rng, rep: &mut Report, verbose: bool) {
                     return;
                 }
             };
-            let (want_name, want_val): (&str, Option<Node>) = match typed_kind % 3 {
+            let (want_name, want_val): (&str, Option<Node>) = match typed_kind % 4 {
+                3 => {
+                    // RFC 5805: SEQUENCE { commit BOOLEAN DEFAULT TRUE, identifier OCTET STRING }
+                    let mut kids = vec![];
+                    if !critical {
+                        kids.push(ber::boolean(false));
+                    }
+                    kids.push(ber::octets(authz.as_bytes()));
+                    ("1.3.6.1.1.21.3", Some(ber::seq(kids)))
+                }
                 0 => {
                     let mut kids = vec![];
                     if pm.0 {
@@ -390,7 +412,7 @@ fn run_composed_case(i: u64, rng: &mut Rng, rep: &mut Report, verbose: bool) {
                         _ => false,
                     };
                     if !ok {
-                        rep.violation(format!("C02:request:extended:value:{}", ["PasswordModify", "WhoAmI", "StartTxn"][(typed_kind % 3) as usize]), format!("fields present {:?}: got {:?} expected {:?}", pm, got, want_val), replay.clone());
+                        rep.violation(format!("C02:request:extended:value:{}", ["PasswordModify", "WhoAmI", "StartTxn", "EndTxn"][(typed_kind % 4) as usize]), format!("fields present {:?}: got {:?} expected {:?}", pm, got, want_val), replay.clone());
                     }
                 }
                 other => rep.violation("C02:request:extended-sent-as-something-else", format!("{:?}", other.kind()), replay.clone()),
@@ -412,11 +434,22 @@ fn run_composed_case(i: u64, rng: &mut Rng, rep: &mut Report, verbose: bool) {
                 2 => ("1.3.6.1.1.13.1", false, Some(ber::encode_min(&seq_of_strings(&rd_attrs)))),
                 3 => ("1.3.6.1.1.13.2", false, Some(ber::encode_min(&seq_of_strings(&rd_attrs)))),
                 4 => ("1.3.6.1.4.1.4203.666.5.12", false, None),
+                5 => {
+                    // RFC 4533: SEQUENCE { mode ENUMERATED, cookie OCTET STRING OPTIONAL, reloadHint BOOLEAN DEFAULT FALSE }
+                    let mut kids = vec![ber::enumerated(if sync_mode_persist { 3 } else { 1 })];
+                    if let Some(c) = &sync_cookie {
+                        kids.push(ber::octets(c));
+                    }
+                    if sync_hint {
+                        kids.push(ber::boolean(true));
+                    }
+                    ("1.3.6.1.4.1.4203.1.9.1.1", critical, Some(ber::encode_min(&ber::seq(kids))))
+                }
                 _ => ("1.3.6.1.1.21.2", true, Some(authz.clone().into_bytes())),
             };
             let want = Some(vec![Ctl { oid: oid.as_bytes().to_vec(), crit, val }]);
             if m.controls != want {
-                rep.violation(format!("C02:controls:typed:{}", ["ProxyAuth", "ManageDsaIt", "PreRead", "PostRead", "RelaxRules", "TxnSpec"][typed_kind as usize]), format!("got {} expected {}", trunc(&m.controls), trunc(&want)), replay.clone());
+                rep.violation(format!("C02:controls:typed:{}", ["ProxyAuth", "ManageDsaIt", "PreRead", "PostRead", "RelaxRules", "SyncRequest", "TxnSpec"][typed_kind as usize]), format!("got {} expected {}", trunc(&m.controls), trunc(&want)), replay.clone());
             }
             let _ = CTX;
             rep.count("typed_controls_checked", 1);
